@@ -24,7 +24,8 @@ TECHNIQUE = ("Lean 4 invariant proofs (every history, every refusal index, every
              "XalanDeque (push/pop/clear, allocating values), XalanMap (buckets, rehash, entry recycling, allocating values), "
              "ReusableArenaBlock and the allocate/construct/commit protocol, the arena block list as an owner state machine, "
              "XalanMemMgrAutoPtr, XalanArrayAllocator, the transcoder slot of XalanOutputStream, the busy/available partition of "
-             "XalanDOMStringCache with its bound, XalanConstruct/XalanAllocationGuard, reserve-before-create -- each tied to the working "
+             "XalanDOMStringCache with its bound, the evicting most-recently-used caches (shape and bound read by a translator), "
+             "XalanConstruct/XalanAllocationGuard, reserve-before-create -- each tied to the working "
              "tree by lock-step replay of the real templates / classes under a counting/failing MemoryManager (for every refusal index "
              "where the object allocates); a translator regenerates the table of all XalanConstruct overloads and placement-new sites "
              "and the guard-shape theorems are re-proved over it; the library as a whole is covered by exhaustive fault-index "
@@ -41,15 +42,17 @@ LEVEL_TEXT = ("PROVED (Props/C19.lean, kernel-checked, unbounded): with a ledger
               "an owner for its storage (regenerated table, decide); the output stream's transcoder slot is never destroyed twice over "
               "all setOutputEncoding histories; over all get/release/reset/clear histories of XalanDOMStringCache with any bound the "
               "strings alive in its allocator are exactly the strings its two lists name and none is destroyed twice "
-              "(cache_release_destroys_once). The defects of the original code, and the seeded mutations met so far, are proved as "
+              "(cache_release_destroys_once); every cache bound of the tree is crossed by bound + 2 in a scenario and every evicting cache "
+              "destroys exactly the entry it removes (regenerated table; eviction_destroys_the_evicted_entry). The defects of the original code, and the seeded mutations met so far, are proved as "
               "counterexamples. Names ending _partial say what is missing (one arena block, lists only). ENUMERATED, NOT PROVED: the "
-              "~1000-14000 allocation sites of a transformation -- for the fixed scenarios of gen/corpus/c19 (14 stylesheets incl. "
+              "~1000-14000 allocation sites of a transformation -- for the fixed scenarios of gen/corpus/c19 (16 stylesheets incl. "
               "bounded-cache crossings and duplicate map keys at compile time, two-transformer/two-manager, Xerces-DOM and "
               "document-builder sources, 26 stylesheets failing for non-memory reasons, 2 reused-output-stream scenarios) every "
               "allocation index of ctor/compile/parse/transform/destroy is refused once on the real library (exhaustive in the index, "
               "not in scenarios; the largest transform phases in the thorough tier only) and process survival, double/foreign frees per "
               "manager, surfacing of the failure, balance at destruction (also of the compiled stylesheet alone) and a fresh transformer "
-              "are checked; likewise every request of the global initialisation (then: retry, transform, terminate) and of an "
+              "are checked; likewise every request of the global initialisation (then: retry with the same manager / discard it and "
+              "initialise with a fresh one, transform, terminate), every request of terminate(), and of an "
               "XPathEvaluator over a document of another manager; XercesParserLiaison::destroyDocument by balance only; recorded traces "
               "are judged by the Lean ledger.")
 LEVEL_NOTE = ("Trusted: Lean kernel; axioms propext/Classical.choice/Quot.sound only; the hand transcriptions of XalanVector.hpp, "
@@ -101,6 +104,10 @@ THEOREMS = [
     "XalanModel.Props.C19.cache_reset_ignores_bound_example",
     "XalanModel.Props.C19.array_allocator_balanced_and_failure_contained",
     "XalanModel.Props.C19.array_allocator_clear_leaks_counterexample",
+    "XalanModel.Props.C19.all_bounded_caches_crossed",
+    "XalanModel.Props.C19.all_evicting_caches_consistent",
+    "XalanModel.Props.C19.eviction_destroys_the_evicted_entry",
+    "XalanModel.Props.C19.lru_destroy_front_pop_back_counterexample",
 ]
 
 CORPUS_DIR = os.path.join(common.ROOT, "gen", "corpus", "c19")
@@ -124,6 +131,10 @@ QUICK_SCENARIOS = [("s1", "split"), ("s2", "direct"), ("s3", "split"), ("s4", "d
                    # the other bounded caches / pools: > 50 run-time match patterns, 60 dyn:evaluate strings, result tree
                    # fragments nested 45 deep, xsl:sort inside a recursion 45 deep
                    ("s14", "split"),
+                   # the evicting caches: 12 distinct decimal-format symbol sets through format-number() (ICU DecimalFormat cache,
+                   # 10 entries), 12 distinct xsl:sort lang values (ICU collator cache, 10 entries); bound + 2 keys, then recently
+                   # used, evicted and surviving keys again
+                   ("s15", "split"), ("s16", "split"),
                    # Xerces-DOM parsed source (parseSource(.., true) / destroyParsedSource)
                    ("s2", "xdom")]
 THOROUGH_SCENARIOS = QUICK_SCENARIOS + [("s5", "split"), ("s6", "split"), ("s2", "split"), ("s5", "direct"), ("s9", "direct")]
@@ -143,6 +154,7 @@ QUICK_PHASES = {"s11": ("ctor", "parse", "transform", "destroy"), "w1": (),
                 # counting runs (balance per manager, no refusal) in quick; refusal sweeps in the thorough tier
                 "s12": ("transform",), "s13": (), "s2-cross": (), "s11-cross": (), "s2-xdom": ("parse", "destroy"),
                 "s2-builder": ("parse",), "s2-crossb": (), "s14": ("transform",),
+                "s15": ("transform", "destroy"), "s16": ("transform", "destroy"),
                 # the two largest compile phases are swept in the thorough tier only (their counting runs, i.e. balance with and
                 # without the compiled stylesheet alone, stay in quick)
                 "s9": ("ctor", "parse", "transform", "destroy"), "s10": ("ctor", "parse", "transform", "destroy")}
@@ -920,69 +932,89 @@ def gen_cache_history_handles(r, n):
 
 
 def init_part(ctx, exe):
-    """global initialisation under a refusing manager: XalanTransformer::initialize(mgr) with its k-th request refused (every k, each
-    in a fresh process), then — as an application would — initialize() again with nothing refused, one transformation, and
-    terminate().  The retry must succeed, the transformation must give the result of the clean run, nothing may be freed
-    twice, and the process must not die."""
+    """global initialisation under a refusing manager, every request index, each in a fresh process, three histories:
+    retry   -- XalanTransformer::initialize(mgr) with request k refused; initialize() again with the SAME manager; transform; terminate()
+    discard -- the same refusal; the application DISCARDS that manager (its outstanding blocks are poisoned; any later call into it is
+               counted); initialize() with a FRESH manager; transform; terminate(): the library must not hold or touch anything of
+               the discarded manager (blocks still outstanding in it are allowed only if nothing refers to them)
+    term    -- initialize(); transform; terminate() with ITS request k refused
+    The retry must succeed, the transformation must give the result of the clean run, nothing may be freed twice or into the wrong
+    manager, the manager the library ends up initialised with must be balanced after terminate(), the process must not die."""
     rc, lines = run_harness(exe, ["count", "s1.xsl", "s1.xml", "split", "-"])
     cl = [l for l in lines if l.startswith("counts ")]
     if not cl:
         return
     want = fields(cl[0])["outhash"]
-    rc, out = run_harness(exe, ["init", "s1.xsl", "s1.xml", "0", "0", "1", want])
+    rc, out = run_harness(exe, ["init", "s1.xsl", "s1.xml", "0", "0", "1", want, "retry"])
     f0 = fields(out[0]) if out else {}
-    ok0 = f0.get("end") == "exit0" and f0.get("init1") == "ok" and f0.get("work") == "ok" and f0.get("same") == "1"
+    ok0 = f0.get("end") == "exit0" and f0.get("init1") == "ok" and f0.get("work") == "ok" and f0.get("same") == "1" and f0.get("term") == "ok"
     ctx.oblige("fault harness: XalanTransformer::initialize(manager) / transform / terminate() with nothing refused reproduces the "
                "clean run", "correspondence", ok0, str(out[:1])[:600])
     if not ok0:
         return
     ctx.case(nontrivial_key=("init", 0), cls="global-init")
     if f0.get("live") != "0" or f0.get("foreign") != "0" or f0.get("double") != "0":
-        ctx.fail("init.unbalanced", "initialize(manager) .. terminate() with nothing refused: " + out[0][-300:], {"init_k": 0})
-    n = int(f0["n_init"])
+        ctx.fail("init.unbalanced", "initialize(manager) .. terminate() with nothing refused: " + out[0][-300:], {"init_k": 0, "init_mode": "retry", "outhash": want})
     jobs = str(max(2, min(16, common.NPROC)))
-    rc, out = run_harness(exe, ["init", "s1.xsl", "s1.xml", "1", str(n), jobs, want])
-    got = {}
-    for l in out:
-        if l.startswith("k="):
-            f = fields(l)
-            got[int(f["k"])] = f
-    if len(got) != n:
-        ctx.oblige("fault harness: every index of the global initialisation reported", "correspondence", False,
-                   "%d of %d; rc=%d" % (len(got), n, rc))
-    stats = {"children": 0, "retry_ok": 0, "leak_after_failure": 0}
-    for k in sorted(got):
-        f = got[k]
-        stats["children"] += 1
-        inp = {"init_k": k, "outhash": want}
-        ctx.case(nontrivial_key=("init", k), cls="fault:global-init", sample=inp if k == 1 else None)
-        fs = "|".join(f.get("failsite", "?").split("|")[:2])
-        stage = f.get("stages", "").split(",")[-1]
-        if f.get("end") != "exit0":
-            ctx.fail("init.%s[%s] during[%s] k=%d" % ("signal" + f["signal"] if "signal" in f else "terminate" if "terminate" in f else "died",
-                                                        "|".join((f.get("sigstack") or f.get("terminate") or "?").split("|")[:2]), stage, k),
-                     "refusing request #%d of XalanTransformer::initialize(manager) ends the process (%s) in stage `%s`; refused at %s" % (
-                         k, f.get("end"), stage, fs), inp)
+    stats = {}
+    for mode, n in (("retry", int(f0["n_init"])), ("discard", int(f0["n_init"])), ("term", int(f0["n_term"]))):
+        if n == 0:
             continue
-        if f.get("init1") == "ok":
-            ctx.oblige("fault harness: the refusal fired in the global initialisation, k=%d" % k, "correspondence", False, str(f)[:400])
-            continue
-        if f.get("foreign") != "0" or f.get("double") != "0":
-            ctx.fail("init.badfree[%s] k=%d" % (fs, k), "double/foreign free after a refused request of the global initialisation: " + str(f)[:400], inp)
-        if f.get("init2") != "ok":
-            ctx.fail("init.retry-fails[%s] k=%d" % (f.get("init2"), k),
-                     "after a refused request (#%d, at %s) XalanTransformer::initialize() fails again although nothing is refused" % (k, fs), inp)
-        elif f.get("work") != "ok" or f.get("same") != "1":
-            ctx.fail("init.retry-unusable[%s] k=%d" % (stage if f.get("work") != "ok" else "other-output", k),
-                     "after a refused request (#%d, at %s) the second XalanTransformer::initialize() succeeds, but the library is not "
-                     "initialised: the transformation %s" % (k, fs, "fails: work=" + str(f.get("work")) if f.get("work") != "ok" else "gives another result"), inp)
-        else:
-            stats["retry_ok"] += 1
-            if f.get("live") != "0":
-                stats["leak_after_failure"] += 1       # allowed: reclaimable by discarding the manager
+        rc, out = run_harness(exe, ["init", "s1.xsl", "s1.xml", "1", str(n), jobs, want, mode])
+        got = {}
+        for l in out:
+            if l.startswith("k="):
+                f = fields(l)
+                got[int(f["k"])] = f
+        if len(got) != n:
+            ctx.oblige("fault harness: every index of the global initialisation reported (%s)" % mode, "correspondence", False,
+                       "%d of %d; rc=%d" % (len(got), n, rc))
+        st = stats.setdefault(mode, {"children": 0, "survived_and_usable": 0, "blocks_left_in_failed_manager": 0})
+        for k in sorted(got):
+            f = got[k]
+            st["children"] += 1
+            inp = {"init_k": k, "init_mode": mode, "outhash": want}
+            ctx.case(nontrivial_key=("init", mode, k), cls="fault:global-init-" + mode, sample=inp if k == 1 else None)
+            fs = "|".join(f.get("failsite", "?").split("|")[:2])
+            stage = f.get("stages", "").split(",")[-1]
+            tag = "" if mode == "retry" else mode + "."
+            what = ("request #%d of XalanTransformer::terminate()" if mode == "term" else "request #%d of XalanTransformer::initialize(manager)") % k
+            if f.get("end") != "exit0":
+                ctx.fail("init.%s%s during[%s] k=%d" % (tag, site_of(f)[4:], stage, k),
+                         "refusing %s ends the process (%s) in stage `%s` of history `%s`; refused at %s" % (what, f.get("end"), stage, mode, fs), inp)
+                continue
+            if f.get("fired") != "1":
+                ctx.oblige("fault harness: the refusal fired in the global initialisation, %s k=%d" % (mode, k), "correspondence", False, str(f)[:400])
+                continue
+            if f.get("foreign") != "0" or f.get("double") != "0":
+                ctx.fail("init.%sbadfree[%s] k=%d" % (tag, fs, k), "double/foreign free after refusing %s: %s" % (what, str(f)[:400]), inp)
+            if f.get("afterdiscard", "0") != "0":
+                ctx.fail("init.discard.touches-discarded-manager[%s] k=%d" % (fs, k),
+                         "after refusing %s the application discarded the manager; the library called into it %s more time(s) (statics still "
+                         "hold objects of the discarded manager)" % (what, f.get("afterdiscard")), inp)
+            elif mode == "term":
+                if f.get("term") not in ("ok", "oom") or f.get("live") != "0":
+                    ctx.fail("init.term.unbalanced[%s] k=%d" % (fs, k), "refusing %s: terminate() = %s, %s block(s) of the initialisation manager "
+                             "outstanding afterwards" % (what, f.get("term"), f.get("live")), inp)
+                else:
+                    st["survived_and_usable"] += 1
+            elif f.get("init2") != "ok":
+                ctx.fail("init.%sretry-fails[%s] k=%d" % (tag, f.get("init2"), k),
+                         "after refusing %s (at %s) XalanTransformer::initialize() fails again although nothing is refused" % (what, fs), inp)
+            elif f.get("work") != "ok" or f.get("same") != "1":
+                ctx.fail("init.%sretry-unusable[%s] k=%d" % (tag, stage if f.get("work") != "ok" else "other-output", k),
+                         "after refusing %s (at %s) the second XalanTransformer::initialize() succeeds, but the library is not "
+                         "initialised: the transformation %s" % (what, fs, "fails: work=" + str(f.get("work")) if f.get("work") != "ok" else "gives another result"), inp)
+            elif mode == "discard" and f.get("live") != "0":
+                ctx.fail("init.discard.unbalanced[%s] k=%d" % (fs, k), "fresh manager after initialize/transform/terminate: %s block(s) outstanding" % f.get("live"), inp)
+            else:
+                st["survived_and_usable"] += 1
+                if (mode == "retry" and f.get("live") != "0") or (mode == "discard" and f.get("left") != "0"):
+                    st["blocks_left_in_failed_manager"] += 1      # allowed: nothing refers to them (the discard history poisons them and goes on)
     ctx.extra["global_init_enumeration"] = stats
-    for k2, v2 in stats.items():
-        ctx.hist["init:" + k2] = v2
+    for m, st in stats.items():
+        for k2, v2 in st.items():
+            ctx.hist["init:%s:%s" % (m, k2)] = v2
 
 
 def liaison_part(ctx, exe):
@@ -1117,6 +1149,9 @@ def run(ctx):
     # regenerated on every run: the XalanConstruct/XalanCopyConstruct overloads and every placement-new site of the working tree
     ok_tr, tr_out = ctx.translate("c19_construct")
     ctx.extra["construct_translator"] = tr_out.strip().split("\n")[:12]
+    # regenerated on every run: every bounded cache of the working tree, its bound, its eviction shape, its crossing scenario
+    ok_tc, tc_out = ctx.translate("c19_caches")
+    ctx.extra["cache_translator"] = tc_out.strip().split("\n")[:14]
     ctx.lean("XalanModel.Props.C19", THEOREMS, extra_targets=["xm_c19"])
     model = ctx.exe("xm_c19")
     if model is None:
@@ -1167,10 +1202,11 @@ def replay(ctx, path):
             f = fields(out[0]) if out else {}
             return 0 if f.get("end") == "exit0" and all(f.get(x) == "0" for x in ("foreign1", "double1", "foreign2", "double2")) else 1
         if "init_k" in inp:
-            rc, out = run_harness(exe, ["init", "s1.xsl", "s1.xml", str(inp["init_k"]), str(inp["init_k"]), "1", inp.get("outhash", "0")])
+            rc, out = run_harness(exe, ["init", "s1.xsl", "s1.xml", str(inp["init_k"]), str(inp["init_k"]), "1", inp.get("outhash", "0"), inp.get("init_mode", "retry")])
             print("\n".join(out))
             f = fields(out[0]) if out else {}
-            return 0 if f.get("end") == "exit0" and f.get("init2") in ("ok", "-") and f.get("work") == "ok" and f.get("same") == "1" else 1
+            return 0 if (f.get("end") == "exit0" and f.get("init2") in ("ok", "-") and f.get("work") == "ok" and f.get("same") == "1"
+                         and f.get("afterdiscard", "0") == "0" and f.get("foreign") == "0" and f.get("double") == "0") else 1
         rc, out = run_harness(exe, ["liaison", "s2.xml", inp["liaison"], str(inp["ndocs"])])
         print("\n".join(out))
         f = fields(out[0]) if out else {}
